@@ -382,6 +382,9 @@ class Ctx:
               "coverage": self.cov, "assumptions": self.assumptions,
               "wall_s": round(time.time() - self.t0, 1), "violations": len(self.violations)}
         evpath = os.path.join(ROOT, "evidence", self.pid + ".json")
+        if not self.pid.startswith("C"):     # checks beyond the listed properties (X..): kept apart from the claimed evidence
+            os.makedirs(os.path.join(ROOT, "evidence_extra"), exist_ok=True)
+            evpath = os.path.join(ROOT, "evidence_extra", self.pid + ".json")
         if self.replay_mode:      # a replay never overwrites the evidence of a full run
             evpath = os.path.join(self.work, "evidence-replay.json")
         elif os.environ.get("VERIF_EVIDENCE_TO_WORK"):
